@@ -721,3 +721,32 @@ func onlyLoadStore(instr ssa.Instruction) bool {
 	}
 	return true
 }
+
+// encodeRuneSym UTF-8 encodes a symbolic rune, forking over the encoding length.
+func (i *interpreter) encodeRuneSym(r sym) []value {
+	tt := i.tt()
+	t := r.t // 32-bit
+	c := func(v uint64) *Term { return tt.Const(32, v) }
+	b8 := func(x *Term) value { return mkval(tt.Extract(7, 0, x), types.Uint8) }
+	shr := func(x *Term, n uint64) *Term { return tt.Bin("bvlshr", x, c(n)) }
+	and := func(x *Term, m uint64) *Term { return tt.Bin("bvand", x, c(m)) }
+	or := func(x *Term, m uint64) *Term { return tt.Bin("bvor", x, c(m)) }
+	runeError := []value{uint8(0xEF), uint8(0xBF), uint8(0xBD)}
+	if i.ps.branch(tt.Cmp("ult", t, c(0x80))) {
+		return []value{b8(t)}
+	}
+	if i.ps.branch(tt.Cmp("ult", t, c(0x800))) {
+		return []value{b8(or(shr(t, 6), 0xC0)), b8(or(and(t, 0x3F), 0x80))}
+	}
+	// surrogates and out of range (including negative = large unsigned)
+	if i.ps.branch(tt.And(tt.Cmp("ule", c(0xD800), t), tt.Cmp("ule", t, c(0xDFFF)))) {
+		return runeError
+	}
+	if i.ps.branch(tt.Cmp("ult", t, c(0x10000))) {
+		return []value{b8(or(shr(t, 12), 0xE0)), b8(or(and(shr(t, 6), 0x3F), 0x80)), b8(or(and(t, 0x3F), 0x80))}
+	}
+	if i.ps.branch(tt.Cmp("ule", t, c(0x10FFFF))) {
+		return []value{b8(or(shr(t, 18), 0xF0)), b8(or(and(shr(t, 12), 0x3F), 0x80)), b8(or(and(shr(t, 6), 0x3F), 0x80)), b8(or(and(t, 0x3F), 0x80))}
+	}
+	return runeError
+}
